@@ -174,11 +174,12 @@ CHECKS['C08'] = dict(
    text='Round-trip theorems (push;pop for every pushable register/word/product/accumulator, call/callr/calla;ret in both pc word '
         'orders, interrupt entry;reti/retic on every line, cntx s;r, banke/bankr twice) are evaluated by TLC on the specification from '
         'random complete register states; each instruction of these families is bound to the specification by validating every '
-        'encoding executed by the real interpreter in full.',
+        'encoding executed by the real interpreter in full; guest programs with line and vectored interrupts, context switches per source and '
+        'several sources raised by one trigger write run on a real Teakra (single-stepped and sliced) and are validated against System.tla.',
    design_ref='5.8',
    note='Trusted: TLC, CommunityModules, g++, the frozen TLA+ semantics. Theorems are evaluated on sampled states (thousands), not all; '
         'product push/pop is stated with the product shifter off.',
-   technique='TLA+ spec: TLC evaluation of pair theorems on sampled states + TLC trace validation of real instruction executions')
+   technique='TLA+ spec: TLC evaluation of pair theorems on sampled states + TLC trace validation of real instruction executions and of guest programs in the composed machine')
 CHECKS['C09'] = dict(
    text='Loop programs generated from (depth 1..4, counts, rep, two-word last instruction, register/immediate count) parameters are '
         'executed cycle by cycle on the specification by TLC and compared with the unrolled execution counts, the visible loop counter '
